@@ -244,9 +244,8 @@ impl AuthRxBuilder {
             && self.reason_string.is_none()
             && self.user_property.is_none();
 
-        if !shortened
-            && (self.authentication_method.is_none() || self.authentication_data.is_none())
-        {
+        // Authentication data is optional, the method is not.
+        if !shortened && self.authentication_method.is_none() {
             Err(MandatoryPropertyMissing.into())
         } else {
             Ok(())
